@@ -54,7 +54,8 @@ Definition cmd_invalidates (c : hcmd) : bool :=
   match c with
   | HAdd _ _ | HDangling _ _ | HSub _ _ | HGrow _ _ | HMods | HFlatten => Flags.mutation_point_invalidates Flags.MP_add_to_graph
   | HSetReg _ _ => Flags.mutation_point_invalidates Flags.MP_set_registry
-  | HGlobal _ _ _ _ => Flags.mutation_point_invalidates Flags.MP_override_enter && Flags.mutation_point_invalidates Flags.MP_override_leave
+  | HGlobal _ _ _ _ => Flags.mutation_point_invalidates Flags.MP_override_enter
+  | HUnglobal => Flags.mutation_point_invalidates Flags.MP_override_leave
   | HObsListing | HObsOther => Flags.mutation_point_invalidates Flags.MP_handoff     (* listing hands relation links down *)
   | HObsDuration => true
   end.
